@@ -22,6 +22,7 @@ def run_check(pid: str, tier: str) -> int:
         model = Model()
         meta = dict(getattr(mod, "META", {}))
         meta["units"] = model.units()
+        meta["renamed_helpers"] = dict(getattr(model, "renamed", {}))
         for anchor in getattr(mod, "ANCHORS", []):
             model.func(anchor)  # raises AnalysisError when vanished
         res = mod.check(model, tier)
